@@ -50,6 +50,17 @@ partial def parseExpr : List String → Option (Expr × List String)
         | ")" :: r4 => some (.try_ a c b, r4)
         | _ => none
       | _ => none
+  | "(" :: "tryre" :: rest => do
+      let (a, r1) ← parseExpr rest
+      match r1 with
+      | c :: r2 => do
+        let c ← parseCatch? c
+        let (b, r3) ← parseExpr r2
+        match r3 with
+        | ")" :: r4 => some (.tryRe a c b, r4)
+        | _ => none
+      | _ => none
+  | "(" :: "tryfin" :: rest => bin .tryFin rest
   | "(" :: "call" :: c :: rest => do
       let c ← c.toNat?
       let (args, r1) ← parseArgs rest
